@@ -149,8 +149,31 @@ def run_doc(ctx: Ctx, it: dict) -> None:
                     "custom_transport": c["custom_transport"], "outcome": po["results"].get(c["id"], {}).get("outcome")})
 
 
+def namesake_doc(schema_name: str, code: str) -> specgen.Doc:
+    """A document with a schema spelled like the exception class its declared error status maps to (NotFoundError / 404)."""
+    R = {"$ref": f"#/components/schemas/{schema_name}"}
+    doc = {"openapi": "3.0.3", "info": {"title": "N", "version": "1"}, "paths": {"/op1/items": {"get": {
+        "operationId": "getItem", "tags": ["items"], "responses": {"200": {"description": "ok", "content": {"application/json": {"schema": {
+            "type": "object", "properties": {"id": {"type": "string"}}}}}},
+            code: {"description": "declared error", "content": {"application/json": {"schema": R}}}}}},
+        # ... and the same tag has an operation that RETURNS that schema, so the endpoints module imports the model
+        "/op2/problems": {"get": {"operationId": "lastProblem", "tags": ["items"], "responses": {"200": {"description": "ok", "content": {
+            "application/json": {"schema": R}}}}}}},
+        "components": {"schemas": {schema_name: {"type": "object", "properties": {"message": {"type": "string"}, "code": {"type": "integer"}}}}}}
+    ops = [{"seg": "op1", "path": "/op1/items", "method": "GET", "tags": ["items"], "operationId": "getItem", "params": [], "body": None,
+            "responses": {"200": {"content": "json"}, code: {"error": True}}},
+           {"seg": "op2", "path": "/op2/problems", "method": "GET", "tags": ["items"], "operationId": "lastProblem", "params": [], "body": None,
+            "responses": {"200": {"content": "json"}}}]
+    return specgen.Doc(doc, {schema_name: {"kind": "object", "parents": [], "props": {}}}, ops, {"schema_named_like_an_exception_class"})
+
+
 def run_shard(ctx: Ctx) -> None:
     common.use_repo()
+    namesakes = [("NotFoundError", "404"), ("ConflictError", "409"), ("InternalServerError", "500"), ("HTTPError", "404"), ("ClientError", "422")]
+    for i, (nm, code) in enumerate(namesakes):
+        if ctx.mine(i):
+            ctx.rec.count("namesake_documents")
+            run_doc(ctx, {"doc": namesake_doc(nm, code), "n": ctx.shard * 100000 + 900 + i, "trigger": {"schema_named_like_an_exception_class"}})
     total = 5 if ctx.quick else 20
     for b in range(total):
         trig: set[str] = set()
